@@ -1370,12 +1370,17 @@ def generate_loopy(result: Array | AbstractResultWithNamedArrays | dict[str, Arr
     # optimization: remove any ImplStored tags on outputs to avoid redundant
     # store-load operations (see https://github.com/inducer/pytato/issues/415)
     # (This must be done after all the calls have been inlined)
-    outputs = DictOfNamedArrays(
-        {name: (output.without_tags(ImplStored(),
-                                    verify_existence=False)
-                if not isinstance(output,
-                                  InputArgumentBase)
+    # (one stripped copy per distinct output, so that an array returned under
+    # several names remains a single object)
+    output_sans_stored: dict[Array, Array] = {}
+    for output in outputs._data.values():
+        if output not in output_sans_stored:
+            output_sans_stored[output] = (
+                output.without_tags(ImplStored(), verify_existence=False)
+                if not isinstance(output, InputArgumentBase)
                 else output)
+    outputs = DictOfNamedArrays(
+        {name: output_sans_stored[output]
          for name, output in outputs._data.items()},
         tags=outputs.tags)
 
